@@ -9,6 +9,7 @@ python3 -c "import importlib.util,sys; s=importlib.util.spec_from_file_location(
 rc=0
 (cd harness && cargo build --release --offline --target-dir target-default) || { echo "setup: harness build (default) failed"; rc=1; }
 (cd harness && cargo build --release --offline --target-dir target-altcrypto --no-default-features --features altcrypto) || { echo "setup: harness build (altcrypto) failed"; rc=1; }
+(cd harness && cargo build --release --offline --target-dir target-optimism --features optimism) || { echo "setup: harness build (optimism) failed"; rc=1; }
 if [ -x harness/target-default/release/tables ]; then
   harness/target-default/release/tables | python3 tools/tables2lean.py > work/Tables.lean.new && \
     (cmp -s work/Tables.lean.new lean/Revm/Gen/Tables.lean || cp work/Tables.lean.new lean/Revm/Gen/Tables.lean)
